@@ -171,9 +171,16 @@ def instantiated (s : St) (i : IId) (x : Inst) (n : Name) (p : PId) : Except Res
 /-- src: String._validate_value: only a string (or None, `allow_None`) is accepted -/
 def rejects (s : St) (q : Param) (v : Obj) : Bool := q.strOnly && s.nonStr.contains v
 
-/-- src: Parameter.__set__: `_old = obj._param__private.values.get(self.name, self.default)` -/
-def guardOld (x : Inst) (n : Name) (q : Param) : Obj :=
-  match aget x.values n with | some o => o | none => q.default
+/-- src: Parameter._held_value (e80cc81): what the attribute reads on the instance — its own value if it
+has one, otherwise the default of the *class's* Parameter (`type(obj).param._cls_parameters.get(name, self)`),
+not the per-instance copy's snapshot of it -/
+def guardOld (s : St) (x : Inst) (n : Name) (q : Param) : Obj :=
+  match aget x.values n with
+  | some o => o
+  | none =>
+    match descriptor s x.cls n with
+    | some (p, _) => (match s.heap[p]? with | some qc => qc.default | none => q.default)
+    | none => q.default
 
 /-- src: Parameter.__set__ on an *initialised* instance, from the guard on; `ip` is the Parameter
 object the call was delegated to (`instance_descriptor`) -/
@@ -187,7 +194,7 @@ def guardedStore (s : St) (i : IId) (x : Inst) (n : Name) (ip : PId) (v : Obj) :
       if q.readonly then (s, .typeError)
       else
         -- `if val is not _old: raise TypeError`
-        if v = guardOld x n q then (s, .ok) else (s, .typeError)
+        if v = guardOld s x n q then (s, .ok) else (s, .typeError)
     else (setInst s i { x with values := aset x.values n v }, .ok)
 
 /-- `setattr(obj, n, v)` after construction -/
